@@ -27,7 +27,7 @@
 #include <iterator>     // Needed for reverse_iterator
 #include <string>       // Needed for char_traits
 #include <utility>      // For std::move
-#include <algorithm>    // For std::min
+#include <algorithm>    // For std::min, std::swap_ranges
 
 #if defined(ST_ENABLE_STL_STRINGS) && defined(ST_HAVE_CXX17_STRING_VIEW)
 #   include <string_view>
@@ -111,7 +111,9 @@ namespace ST
         {
             m_chars = is_reffed() ? move.m_chars : m_data;
             traits_t::copy(m_data, move.m_data, local_length);
+            move.m_chars = move.m_data;
             move.m_size = 0;
+            traits_t::assign(move.m_data, local_length, 0);
         }
 
         buffer(const char_T *data, size_t size)
@@ -188,11 +190,16 @@ namespace ST
 
         buffer<char_T> &operator=(buffer<char_T> &&move) noexcept
         {
+            if (this == &move)
+                return *this;
+
             std::swap(m_chars, move.m_chars);
             std::swap(m_size, move.m_size);
-            traits_t::copy(m_data, move.m_data, local_length);
+            std::swap_ranges(m_data, m_data + local_length, move.m_data);
             if (!is_reffed())
                 m_chars = m_data;
+            if (!move.is_reffed())
+                move.m_chars = move.m_data;
             return *this;
         }
 
